@@ -49,8 +49,8 @@ git apply "$SRC/patch.diff" || { echo "patch does not apply"; exit 2; }
 go build ./... || { echo "does not build"; exit 2; }
 with=$(run_demo)
 suite=FAIL
-for attempt in 1 2 3; do
-  if timeout 1500 go test -vet=off -count=1 -timeout 20m ./... >/tmp/confirm/$P-$V.suite.log 2>&1; then suite=PASS; break; fi
+for attempt in 1 2 3 4 5 6; do
+  if timeout 400 go test -vet=off -count=1 -timeout 5m ./... >/tmp/confirm/$P-$V.suite.log 2>&1; then suite=PASS; break; fi
   # retry only the failing packages' flaky nature: simply rerun
 done
 echo "$P-$V: demo_without=$without demo_with=$with suite_with=$suite"
